@@ -141,130 +141,151 @@ func c14One(cases *verifx.Cases, idx int, now time.Time, h c14Header, vo string,
 		seen = TokenInfoFromContext(r.Context())
 		w.WriteHeader(http.StatusTeapot)
 	})
-	r := httptest.NewRequest("GET", "http://rs.example/mcp", nil)
-	if h.set {
-		r.Header.Set("Authorization", h.value)
-	}
-	w := httptest.NewRecorder()
-	var panicked any
-	func() {
-		defer func() { panicked = recover() }()
-		RequireBearerToken(verifier, opts)(inner).ServeHTTP(w, r)
-	}()
-	fail := func(sig, format string, a ...any) {
-		cases.Violate(idx, "c14 "+sig, fmt.Sprintf(format, a...)+" ["+desc()+"]", 1)
-	}
-	if panicked != nil {
-		fail("panic", "middleware panicked: %v", panicked)
-		return
-	}
-	status := w.Code
-
-	// ---- reference predicate, from the statement
-	parseOK := h.valid
-	verifierOK := vo == "ok"
-	scopesOK := true
-	for _, s := range req {
-		if !slices.Contains(gr, s) {
-			scopesOK = false
-		}
-	}
-	var expiryOK bool
-	if exp.IsZero() {
-		expiryOK = allowMissing
-	} else {
-		expiryOK = !exp.Add(skew).Before(now) // unexpired within the skew: now <= exp+skew
-	}
-	if parseOK == -1 {
-		// undecided shape: whichever way the middleware parses it, the rest must be consistent
-		if verifierCalls > 0 {
-			parseOK = 1
-		} else {
-			parseOK = 0
-		}
-	}
-	admit := parseOK == 1 && verifierOK && scopesOK && expiryOK
+	mw := RequireBearerToken(verifier, opts)
 	obs := ""
-	switch {
-	case admit:
-		if ran != 1 {
-			fail("valid-request-rejected", "every check passes but the handler did not run (status %d)", status)
-			return
+	// The same request is sent three times through the same middleware, the verifier handing out
+	// the same *TokenInfo (a verifier-side cache): the decision is a function of the request, the
+	// token facts and the clock only, never of what was decided before.
+	once := func(rep int) bool {
+		ran, verifierCalls, seen = 0, 0, nil
+		r := httptest.NewRequest("GET", "http://rs.example/mcp", nil)
+		if h.set {
+			r.Header.Set("Authorization", h.value)
 		}
-		if seen != info {
-			fail("wrong-token-info", "the handler saw TokenInfo %p, the verifier returned %p", seen, info)
-			return
-		}
-		if verifierToken != h.token || verifierCalls != 1 {
-			fail("wrong-token", "the verifier was called %d times with %q, want once with %q", verifierCalls, verifierToken, h.token)
-			return
-		}
-		if status != http.StatusTeapot {
-			fail("handler-response-replaced", "the handler ran but the status is %d", status)
-			return
-		}
-		obs = "admitted"
-	default:
-		if ran != 0 {
-			why := []string{}
-			if parseOK != 1 {
-				why = append(why, "malformed credential")
+		w := httptest.NewRecorder()
+		var panicked any
+		func() {
+			defer func() { panicked = recover() }()
+			mw(inner).ServeHTTP(w, r)
+		}()
+		fail := func(sig, format string, a ...any) {
+			if rep > 0 {
+				sig += " on a repeated request"
+				format = fmt.Sprintf("request #%d with the same token: ", rep+1) + format
 			}
-			if !verifierOK {
-				why = append(why, "verifier outcome "+vo)
-			}
-			if !scopesOK {
-				why = append(why, "missing scope")
-			}
-			if !expiryOK {
-				why = append(why, "expired or missing expiration")
-			}
-			fail("invalid-request-admitted: "+strings.Join(why, "+"), "the handler ran although: %s", strings.Join(why, ", "))
-			return
+			cases.Violate(idx, "c14 "+sig, fmt.Sprintf(format, a...)+" ["+desc()+"]", 1)
 		}
-		// legal statuses: the causes present, in the order parse -> verifier -> scopes/expiry
-		var legal []int
+		if panicked != nil {
+			fail("panic", "middleware panicked: %v", panicked)
+			return false
+		}
+		status := w.Code
+
+		// ---- reference predicate, from the statement
+		parseOK := h.valid
+		verifierOK := vo == "ok"
+		scopesOK := true
+		for _, s := range req {
+			if !slices.Contains(gr, s) {
+				scopesOK = false
+			}
+		}
+		var expiryOK bool
+		if exp.IsZero() {
+			expiryOK = allowMissing
+		} else {
+			expiryOK = !exp.Add(skew).Before(now) // unexpired within the skew: now <= exp+skew
+		}
+		if parseOK == -1 {
+			// undecided shape: whichever way the middleware parses it, the rest must be consistent
+			if verifierCalls > 0 {
+				parseOK = 1
+			} else {
+				parseOK = 0
+			}
+		}
+		admit := parseOK == 1 && verifierOK && scopesOK && expiryOK
 		switch {
-		case parseOK != 1:
-			legal = []int{401}
-			if verifierCalls != 0 {
-				fail("verifier-called-on-malformed", "the verifier was called for a malformed credential")
-				return
+		case admit:
+			if ran != 1 {
+				fail("valid-request-rejected", "every check passes but the handler did not run (status %d)", status)
+				return false
 			}
-		case vo == "invalid":
-			legal = []int{401}
-		case vo == "oauth":
-			legal = []int{400}
-		case vo == "other" || vo == "nilinfo":
-			legal = []int{500}
+			if seen != info {
+				fail("wrong-token-info", "the handler saw TokenInfo %p, the verifier returned %p", seen, info)
+				return false
+			}
+			if !seen.Expiration.Equal(exp) || !slices.Equal(seen.Scopes, gr) || seen.UserID != "u" {
+				fail("token-info-altered", "the handler saw TokenInfo %+v, the verifier established expiration %v scopes %v", *seen, exp, gr)
+				return false
+			}
+			if verifierToken != h.token || verifierCalls != 1 {
+				fail("wrong-token", "the verifier was called %d times with %q, want once with %q", verifierCalls, verifierToken, h.token)
+				return false
+			}
+			if status != http.StatusTeapot {
+				fail("handler-response-replaced", "the handler ran but the status is %d", status)
+				return false
+			}
+			obs = "admitted"
 		default:
-			if !scopesOK {
-				legal = append(legal, 403)
+			if ran != 0 {
+				why := []string{}
+				if parseOK != 1 {
+					why = append(why, "malformed credential")
+				}
+				if !verifierOK {
+					why = append(why, "verifier outcome "+vo)
+				}
+				if !scopesOK {
+					why = append(why, "missing scope")
+				}
+				if !expiryOK {
+					why = append(why, "expired or missing expiration")
+				}
+				fail("invalid-request-admitted: "+strings.Join(why, "+"), "the handler ran although: %s", strings.Join(why, ", "))
+				return false
 			}
-			if !expiryOK {
-				legal = append(legal, 401)
+			// legal statuses: the causes present, in the order parse -> verifier -> scopes/expiry
+			var legal []int
+			switch {
+			case parseOK != 1:
+				legal = []int{401}
+				if verifierCalls != 0 {
+					fail("verifier-called-on-malformed", "the verifier was called for a malformed credential")
+					return false
+				}
+			case vo == "invalid":
+				legal = []int{401}
+			case vo == "oauth":
+				legal = []int{400}
+			case vo == "other" || vo == "nilinfo":
+				legal = []int{500}
+			default:
+				if !scopesOK {
+					legal = append(legal, 403)
+				}
+				if !expiryOK {
+					legal = append(legal, 401)
+				}
 			}
+			if !slices.Contains(legal, status) {
+				fail(fmt.Sprintf("wrong-status-%d", status), "status %d, legal for the causes present: %v", status, legal)
+				return false
+			}
+			if (status == 401 || status == 403) && opts != nil {
+				hdr := w.Header().Get("WWW-Authenticate")
+				if url != "" && !strings.Contains(hdr, fmt.Sprintf("resource_metadata=%q", url)) {
+					fail("challenge-missing-metadata-url", "status %d but WWW-Authenticate %q lacks the resource metadata URL", status, hdr)
+					return false
+				}
+				if len(req) > 0 && !strings.Contains(hdr, fmt.Sprintf("scope=%q", strings.Join(req, " "))) {
+					fail("challenge-missing-scopes", "status %d but WWW-Authenticate %q lacks scope=%q", status, hdr, strings.Join(req, " "))
+					return false
+				}
+				if (url != "" || len(req) > 0) && !strings.HasPrefix(hdr, "Bearer ") {
+					fail("challenge-not-bearer", "WWW-Authenticate %q is not a Bearer challenge", hdr)
+					return false
+				}
+			}
+			obs = fmt.Sprintf("rejected-%d parse=%d verifier=%s scopes=%v expiry=%v", status, parseOK, vo, scopesOK, expiryOK)
 		}
-		if !slices.Contains(legal, status) {
-			fail(fmt.Sprintf("wrong-status-%d", status), "status %d, legal for the causes present: %v", status, legal)
+		return true
+	}
+	for rep := 0; rep < 3; rep++ {
+		if !once(rep) {
 			return
 		}
-		if (status == 401 || status == 403) && opts != nil {
-			hdr := w.Header().Get("WWW-Authenticate")
-			if url != "" && !strings.Contains(hdr, fmt.Sprintf("resource_metadata=%q", url)) {
-				fail("challenge-missing-metadata-url", "status %d but WWW-Authenticate %q lacks the resource metadata URL", status, hdr)
-				return
-			}
-			if len(req) > 0 && !strings.Contains(hdr, fmt.Sprintf("scope=%q", strings.Join(req, " "))) {
-				fail("challenge-missing-scopes", "status %d but WWW-Authenticate %q lacks scope=%q", status, hdr, strings.Join(req, " "))
-				return
-			}
-			if (url != "" || len(req) > 0) && !strings.HasPrefix(hdr, "Bearer ") {
-				fail("challenge-not-bearer", "WWW-Authenticate %q is not a Bearer challenge", hdr)
-				return
-			}
-		}
-		obs = fmt.Sprintf("rejected-%d parse=%d verifier=%s scopes=%v expiry=%v", status, parseOK, vo, scopesOK, expiryOK)
 	}
 	cases.Record(idx, obs, 1, desc)
 }
